@@ -832,6 +832,8 @@ func (r *reader) read(src []byte) {
 			r.pushChar(src)
 		case intMode:
 			r.pushInteger(src)
+		case sharpMode, sharpNumMode, mustArrayMode:
+			r.partial("# not terminated")
 		}
 		if 0 < len(r.stack) {
 			r.partial("list not terminated")
